@@ -4,6 +4,7 @@ import (
 	"crypto/sha256"
 	"encoding/hex"
 	"fmt"
+	"github.com/xtaci/smux"
 	"hash"
 	"io"
 	stdlog "log"
@@ -396,6 +397,7 @@ func Execute(t *testing.T, r *Run, body func(r *Run)) (leaked int, hung bool) {
 		synctest.Test(t, func(t *testing.T) {
 			r.Start = time.Now()
 			r.bubble = ownBubble()
+			smux.SimResetSessions()
 			n := simrt.NewNetwork()
 			simrt.Cur = n
 			r.Net = n
